@@ -68,7 +68,8 @@ def generate(tier, rng):
         stocks = []
         for i, s in enumerate(base["stocks"]):
             stocks.append(dict(s, name=DECOR[(k + i) % len(DECOR)].format(f"Stock {i}"), proc=(ren[s["proc"]] if s["proc"] else None)))
-        cases.append(dict(stream="exact", kind="system", sys=dict(uni=base["uni"], procs=procs, flows=flows, stocks=stocks), with_in_out=(k % 2 == 0)))
+        cases.append(dict(stream="exact", kind="system", sys=dict(uni=base["uni"], procs=procs, flows=flows, stocks=stocks), with_in_out=(k % 2 == 0),
+                          own_names=(k % 3 == 2)))
     for k in range(30 if tier == "quick" else 200):
         body = "".join(rng.choice("abcXYZ019 _-./()[]=>&,:;#'\"\t") for _ in range(rng.randint(1, 14)))
         cases.append(dict(stream="names", kind="name", name=body))
@@ -121,6 +122,14 @@ def run_impl(case):
         except Exception as e:  # noqa
             return dict(kind="err", exc=type(e).__name__, msg=str(e)[:150])
     mfa = c02.build_system(case["sys"])
+    if case.get("own_names"):
+        # a hand-assembled system: the objects carry names of their own (the default "unnamed"), the system knows them by its keys
+        for f in mfa.flows.values():
+            f.name = "unnamed"
+        for st in mfa.stocks.values():
+            st.name = "a stock"
+            for q in (st.stock, st.inflow, st.outflow):
+                q.name = "unnamed"
     before = _snapshot(mfa)
     tmp = tempfile.mkdtemp(prefix="flodym-verif-io-")
     out = {}
